@@ -96,11 +96,19 @@ func (c *Ctx) ruleFlagTable() {
 	}
 	// ---- flags looked up
 	looked := map[string]*ssa.Call{}
-	allInstrs(parse, func(b *ssa.BasicBlock, ins ssa.Instruction) {
-		if call, ok := ins.(*ssa.Call); ok && P.CallTo(call, "(*flag.FlagSet).Lookup") != nil {
-			looked[constArg(call.Call.Args[1])] = call
+	for _, f := range P.StaticClosure(parse) {
+		if f != parse && P.isAnchor(f) {
+			continue
 		}
-	})
+		allInstrs(f, func(b *ssa.BasicBlock, ins ssa.Instruction) {
+			if call, ok := ins.(*ssa.Call); ok && P.CallTo(call, "(*flag.FlagSet).Lookup") != nil {
+				// the name may be a parameter of an accessor helper: every name it is called with
+				for _, r := range P.Resolve(call.Call.Args[1]) {
+					looked[constArg(r)] = call
+				}
+			}
+		})
+	}
 	var dn, ln []string
 	for k := range defined {
 		dn = append(dn, k)
@@ -166,18 +174,24 @@ func (c *Ctx) ruleFlagTable() {
 
 	// ---- environment
 	envRead := map[string]string{} // env name -> how
-	allInstrs(fromEnv, func(b *ssa.BasicBlock, ins ssa.Instruction) {
-		call, ok := ins.(*ssa.Call)
-		if !ok {
-			return
+	for _, f := range P.StaticClosure(fromEnv) {
+		if f != fromEnv && P.isAnchor(f) {
+			continue
 		}
-		if P.CallTo(call, "os.Getenv") != nil {
-			envRead[constArg(call.Call.Args[0])] = "Getenv"
-		}
-		if callee := call.Call.StaticCallee(); callee != nil && FuncName(callee) == "config.parseEnvValue" {
-			envRead[constArg(call.Call.Args[0])] = "parseEnvValue"
-		}
-	})
+		allInstrs(f, func(b *ssa.BasicBlock, ins ssa.Instruction) {
+			call, ok := ins.(*ssa.Call)
+			if !ok {
+				return
+			}
+			for _, how := range []string{"os.Getenv", "os.LookupEnv"} {
+				if P.CallTo(call, how) != nil {
+					for _, r := range P.Resolve(call.Call.Args[0]) {
+						envRead[constArg(r)] = how
+					}
+				}
+			}
+		})
+	}
 	var en []string
 	for k := range envRead {
 		en = append(en, k)
@@ -186,6 +200,7 @@ func (c *Ctx) ruleFlagTable() {
 	sort.Strings(docEnvs)
 	c.check(strings.Join(en, ",") == strings.Join(docEnvs, ",") && len(en) == 3, "ENV-TABLE", "config.FromEnv", P.Pos(fromEnv.Pos()), "reads exactly the documented variables "+strings.Join(en, ","), fmt.Sprintf("environment variables read %v differ from the documented ones %v", en, docEnvs))
 	// the returned New(...) of FromEnv
+	lookupEnvOK := true
 	allInstrs(fromEnv, func(b *ssa.BasicBlock, ins ssa.Instruction) {
 		r, ok := ins.(*ssa.Return)
 		if !ok || len(r.Results) != 1 {
@@ -223,60 +238,37 @@ func (c *Ctx) ruleFlagTable() {
 			if fl == "exclude-checks" {
 				wantDef = "slice(new([0]string))"
 			}
-			okL := P.RootsAll(a[i+1], func(x ssa.Value) bool {
-				pc, ok := x.(*ssa.Call)
-				if !ok || pc.Call.StaticCallee() == nil || FuncName(pc.Call.StaticCallee()) != "config.parseEnvValue" {
-					return false
+			// every way the list is computed: the documented default when the variable is unset, the parsed value when
+			// it is set (os.LookupEnv: set-but-empty is honoured)
+			env := envOfFlag[fl]
+			setKey := `extract1(call(os.LookupEnv; const("` + env + `")))`
+			parsed := `call(config.parseStringList; extract0(call(os.LookupEnv; const("` + env + `"))), const(` + fmt.Sprint(fl == "exclude-checks") + `))`
+			nDef, nParsed, nOther := 0, 0, 0
+			for _, vc := range P.ValueCases(a[i+1], 0) {
+				set := hasLit(vc.Guards, func(l Lit) bool { return l.Pos && l.Kind == "cond" && l.Key == setKey })
+				unset := hasLit(vc.Guards, func(l Lit) bool { return !l.Pos && l.Kind == "cond" && l.Key == setKey })
+				isDef := vc.Desc == wantDef || (fl == "exclude-checks" && (strings.HasPrefix(vc.Desc, "slice(") || strings.HasPrefix(vc.Desc, "make(") || vc.Desc == "nil"))
+				switch {
+				case unset && isDef:
+					nDef++
+				case set && vc.Desc == parsed:
+					nParsed++
+				default:
+					nOther++
 				}
-				up, isC := constBool(pc.Call.Args[1])
-				if constArg(pc.Call.Args[0]) != envOfFlag[fl] || !isC || up != (fl == "exclude-checks") {
-					return false
-				}
-				dd := P.Desc(pc.Call.Args[2])
-				return dd == wantDef || (fl == "exclude-checks" && (strings.HasPrefix(dd, "slice(") || strings.HasPrefix(dd, "make(") || dd == "nil"))
-			})
-			c.check(okL, "ENV-TABLE/LIST", fl, where, "parseEnvValue(\""+envOfFlag[fl]+"\", upper="+fmt.Sprint(fl == "exclude-checks")+", documented default)",
-				"the "+fl+" list from the environment is not parseEnvValue(\""+envOfFlag[fl]+"\", toUpper, <documented default>): "+short(P.Desc(a[i+1])))
+			}
+			okL := nDef >= 1 && nParsed >= 1 && nOther == 0
+			lookupEnvOK = lookupEnvOK && okL
+			c.check(okL, "ENV-TABLE/LIST", fl, where, "os.LookupEnv(\""+env+"\"): set -> parseStringList(value, upper="+fmt.Sprint(fl == "exclude-checks")+"), unset -> documented default",
+				"the "+fl+" list from the environment is not {unset: <documented default>, set: parseStringList(os.LookupEnv(\""+env+"\"), toUpper)}: "+short(P.Desc(a[i+1])))
 			// docs default
 			if fl == "exclude-paths" {
 				c.check(docDefault[fl] == "testdata", "ENV-TABLE/DOC-DEFAULT", fl, "book/gogreement-docs/src/01_01_getting_started.md", "documented default testdata", "documented default of exclude-paths is "+docDefault[fl])
 			}
 		}
 	})
-	// parseEnvValue: LookupEnv (set-but-empty honoured)
-	if pev := P.LookupFunc("config", "parseEnvValue"); pev != nil {
-		okPEV := true
-		n := 0
-		allInstrs(pev, func(b *ssa.BasicBlock, ins ssa.Instruction) {
-			r, ok := ins.(*ssa.Return)
-			if !ok || len(r.Results) != 1 {
-				return
-			}
-			n++
-			isSet := func(l Lit) bool {
-				if l.Kind != "cond" || l.Val == nil {
-					return false
-				}
-				ex, ok := l.Val.(*ssa.Extract)
-				return ok && ex.Index == 1 && P.CallTo(ex.Tuple, "os.LookupEnv") != nil
-			}
-			g := P.BlockGuards(b)
-			if r.Results[0] == pev.Params[2] {
-				if !hasLit(g, func(l Lit) bool { return !l.Pos && isSet(l) }) {
-					okPEV = false
-				}
-			} else {
-				pc, isCall := r.Results[0].(*ssa.Call)
-				if !isCall || pc.Call.StaticCallee() == nil || FuncName(pc.Call.StaticCallee()) != "config.parseStringList" || pc.Call.Args[1] != pev.Params[1] ||
-					!strings.HasPrefix(P.Desc(pc.Call.Args[0]), "extract0(call(os.LookupEnv; ") || !hasLit(g, func(l Lit) bool { return l.Pos && isSet(l) }) {
-					okPEV = false
-				}
-			}
-		})
-		c.check(okPEV && n == 2, "ENV-TABLE/LOOKUPENV", "config.parseEnvValue", P.Pos(pev.Pos()), "set (even to \"\") -> parseStringList(value, toUpper); unset -> default", "parseEnvValue does not distinguish set-but-empty from unset with os.LookupEnv, or does not parse the value with the given upper-casing")
-	} else {
-		c.fail("ENV-TABLE/LOOKUPENV", "config.parseEnvValue", "", "function not found")
-	}
+	// LookupEnv (set-but-empty honoured): established per list above
+	c.check(lookupEnvOK, "ENV-TABLE/LOOKUPENV", "config.FromEnv", P.Pos(fromEnv.Pos()), "set (even to \"\") -> parseStringList(value, toUpper); unset -> default", "the list options do not distinguish set-but-empty from unset with os.LookupEnv, or do not parse the value with the given upper-casing")
 }
 
 // ruleParseHelpers: parseStringList and parseBool.
@@ -686,11 +678,31 @@ func (c *Ctx) ruleSkipShape() {
 		return call != nil && isFilename(call.Call.Args[0]) && constArg(call.Call.Args[1]) == "_test.go"
 	}
 	var nExcl, nTest, nFalse int
-	var exclLoopDone *ssa.BasicBlock
-	for _, b := range fn.Blocks {
-		if b.Comment == "rangeindex.done" {
-			exclLoopDone = b
+	// "every exclude path was tried": the point after the loop over ExcludePaths - in ShouldSkipFile or in the
+	// helper that holds the loop
+	var loopDones []*ssa.BasicBlock
+	for _, f := range P.StaticClosure(fn) {
+		if f != fn && (P.isAnchor(f) || f.Parent() != nil) {
+			continue
 		}
+		for _, b := range f.Blocks {
+			if b.Comment == "rangeindex.done" || b.Comment == "for.done" {
+				loopDones = append(loopDones, b)
+			}
+		}
+	}
+	afterLoop := func(o outcome) bool {
+		for _, ld := range loopDones {
+			if ld.Parent() == o.At.Parent() && dominates(ld, o.At.Block()) {
+				return true
+			}
+			for _, v := range o.Via {
+				if ld.Parent() == v.Parent() && dominates(ld, v.Block()) {
+					return true
+				}
+			}
+		}
+		return false
 	}
 	for i, o := range c.outcomes(fn) {
 		cons := fmt.Sprintf("%s#outcome%d", name, i)
@@ -718,7 +730,7 @@ func (c *Ctx) ruleSkipShape() {
 			case byPath && len(extra) == 0:
 				nExcl++
 				c.ok("SKIP-SHAPE/EXCLUDE-PATH", cons, where, "skipped: file name contains an element of ExcludePaths")
-			case byTest && len(extra) == 0 && exclLoopDone != nil && dominates(exclLoopDone, o.At.Block()):
+			case byTest && len(extra) == 0 && afterLoop(o):
 				nTest++
 				c.ok("SKIP-SHAPE/TEST-FILE", cons, where, "skipped: scan-tests off and name ends in _test.go")
 			default:
@@ -727,10 +739,11 @@ func (c *Ctx) ruleSkipShape() {
 			continue
 		}
 		// false: only after every exclude path was tried, and only if ScanTests || !suffix
-		after := exclLoopDone != nil && dominates(exclLoopDone, o.At.Block())
-		cut := P.BlockCutBy(o.At.Block(), func(l Lit) bool {
-			return (l.Pos && isScan(l)) || (!l.Pos && isTestSuffix(l)) || (l.Kind == "and" && !l.Pos && allSubs(l, func(s Lit) bool { return isScan(s) || isTestSuffix(s) }))
-		})
+		after := afterLoop(o)
+		keepPred := func(l Lit) bool {
+			return litImplies(l, func(l Lit) bool { return (l.Pos && isScan(l)) || (!l.Pos && isTestSuffix(l)) })
+		}
+		cut := P.BlockCutBy(o.At.Block(), keepPred) || hasLit(g, keepPred)
 		nFalse++
 		c.check(after && cut, "SKIP-SHAPE/KEEP", cons, where, "kept only after all exclude paths were tried and (ScanTests || not a test file)",
 			"a file is kept (not skipped) without trying every exclude-paths entry or although it is a test file with scan-tests off")
